@@ -43,4 +43,27 @@ theorem reward_eq_makespan_row (i : Inst) (h : WF i) {s : State} (hr : Reach env
 example : (exec env ex (env.reset ex) [0, 1, 0, 1]).reward = some (-4) := by decide
 example : makespan ex (ofMatrix ex (exec env ex (env.reset ex) [0, 1, 0, 1]).sched) = 4 := by decide
 
+/-! ### Why `WF.dur_lt` is needed -/
+
+
+/-- The statement without the duration bound `WF.dur_lt` … -/
+def reward_eq_makespan_any_duration_statement : Prop :=
+  ∀ (i : Inst), 0 < i.S → 0 < i.M → 0 < i.J → (∀ p, p < i.M → i.perm p < i.M) →
+    ∀ (as : List Nat) (s : State), RunND env i (env.reset i) as s → s.done = true →
+      s.reward = some (- makespan i (ofMatrix i s.sched))
+
+/-- 1 stage, 2 machines, 1 job: duration 1 on machine 0 (where it is scheduled), 2 000 000 on machine 1 -/
+def big : Inst := ⟨1, 2, 1, fun _ m => if m = 0 then 1 else 2000000, fun p => p⟩
+
+/-- … is false (known finding `ffsp-reward-sentinel-C03`): the reward is computed as the maximum of
+`schedule + duration` over *all* matrix entries, and an entry that still holds the sentinel −999999 wins
+as soon as its duration exceeds 999999 + makespan.  Here the makespan is 1 and the reward −1000001. -/
+theorem reward_needs_duration_bound : ¬ reward_eq_makespan_any_duration_statement := by
+  intro hst
+  have hr : RunND env big (env.reset big) [0] (exec env big (env.reset big) [0]) :=
+    RunND.cons (by decide) (by decide) (by decide) (RunND.nil _)
+  have := hst big (by decide) (by decide) (by decide) (fun p hp => hp) [0] _ hr (by decide)
+  revert this
+  decide
+
 end Rl4co.Ffsp
